@@ -24,11 +24,21 @@ CHECKS = {
          "For two circuits (plain, lookups) x 7 Fixed arity schedules x cap heights x query counts the real prover is run with every pow witness 0..N (quick 260, thorough 4000): each witness gives a different query-index tuple for the same statement, so equal indices, indices sharing a coset at layer 0/1/2 only and shared cap sub-trees all occur (collision patterns are measured and reported; a run without a full coincidence is a machinery error). Every proof: compress -> decompress identical, compressed to_bytes/from_bytes identical, verify and verify_compressed both accept. Plus one round trip per subject x single-axis configuration deviation (blinding/salts, lookups, three reduction strategies, caps), and verification equivalence on leaf-tampered proofs: verify(p') <=> verify_compressed(compress(p')) whenever compress(p') differs from the honest compression.",
          "trusted: the H1d knob only replaces the grinding search; index tuples are those reached by N witnesses (distinct multisets reported), path compression over ALL index tuples is C12's part",
          "DESIGN.md §4 C16"),
+ "C05": ("model_checking",
+         "bounded exhaustive product enumeration (oracle shapes x degrees x opening structures x parameter tuples x coefficient families) plus single-fault enumeration, every explored FRI proof checked against an independent naive FRI verifier under fixed challenges (exact verdict agreement); complete-domain enumeration of the arity-schedule parameter function",
+         "On the complete parameter domain (degree bits <= 20, rate <= 5, cap <= 8, 382 strategies: all Fixed schedules over {1..4}^<=4, ConstantArityBits, MinSize) the arity schedules never fold below the cap or the degree and leave a final polynomial of the advertised length (MinSize compared with a DP optimum). For every enumerated oracle shape (1-3 oracles x 1-3 polynomials, blinding per oracle), degree <= 2^5, opening structure, parameter tuple and coefficient family, honest plain and batch FRI opening proofs are accepted. For every honest proof and every single deviation (false opening with consistent transcript, adversarial first layer, over-degree commitment, insufficient grinding via the pow-witness knob, each proof element +1, each array drop/empty/duplicate, initial-cap edits; the same on BatchFriOracle with 2-4 degrees) verify_fri_proof / verify_batch_fri_proof return exactly the verdict of the naive reference verifier, and none of the deviations is accepted (probabilistic ones asserted only above q*rate >= 40 or q*lde_bits >= 40).",
+         "trusted: Poseidon hash_or_noop / two_to_one (C13), Goldilocks generator constants (re-checked), serde images of FriProof, library FFT / Merkle builders on the prover/driver side only; toy sizes (d <= 5, <= 28 queries), single deviations",
+         "DESIGN.md §4 C05"),
  "C13": ("model_checking",
          "explicit-state exploration of the challenger state machine (all observe/get sequences up to a depth) against a reference duplex-sponge model, step-by-step conformance on the real Challenger / RecursiveChallenger; bounded exhaustive state enumeration for the permutation layers against textbook Poseidon",
          "Every optimised Poseidon layer and the full permutation on 3^12 uniform-extreme states, all <=2-lane deviations over the representation alphabet from three base states and uniform/single-lane states, against a textbook round-by-round Poseidon on u128 arithmetic (anchored on the published test vectors); all message lengths 0..=40 x output counts for the sponge/compression functions; the challenger explored as a transition system: every sequence in {observe, get}^<=d (Poseidon and Keccak permutations) plus macro-operations, each step compared with a list-based duplex model, and every sequence up to a smaller depth replayed on the in-circuit RecursiveChallenger. Run in the checked profile.",
          "trusted: textbook Poseidon + list-based duplex model in harness/src/c13.rs (anchored on published test vectors); states outside the enumerated alphabets are not covered",
          "DESIGN.md §4 C13"),
+ "C17": ("exploration",
+         "bounded exploration over a circuit catalogue with a measured coverage obligation over the serializer registries; oracle = equality + byte idempotence after decode, identical witnesses/proofs from the restored circuit, cross verification",
+         "A catalogue of ~45 circuits whose union instantiates every gate of DefaultGateSerializer (16) and every generator of DefaultGeneratorSerializer constructible through the public API (23 of 24; coverage is computed at run time from the built circuits against the registry lists parsed from the source files, an uncovered entry is a machinery error) - incl. lookups with 1-3 tables, zero-knowledge blinding, a recursion circuit, conditional recursion with the dummy-proof generator and configuration deviations. Per circuit: CircuitData, ProverCircuitData, VerifierCircuitData, CommonCircuitData, VerifierOnlyCircuitData -> to_bytes -> from_bytes -> equal, to_bytes again byte-identical, same digest, strided strict prefixes rejected without panic; interchange for up to 3 inputs: identical full witness and identical proof from the restored circuit (sequential prover, same blinding seed), each circuit verifies the other's proofs; proof and compressed-proof byte round trips (identity, idempotence, truncated encoding rejected). Circuits with unregistered gate types must be refused with an error.",
+         "trusted: the types' own PartialEq plus byte idempotence; NonzeroTestGenerator is not constructible from outside the crate",
+         "DESIGN.md §4 C17"),
  "C14": ("exploration",
          "bounded exhaustive enumeration of operator x representation-alphabet tuples + BFS closure over raw representations, oracle = harness bigint arithmetic",
          "Every scalar operator of GoldilocksField on every pair/triple of the branch-derived representation alphabet R (75 raw u64 values incl. non-canonical ones), a BFS closure feeding results back as operands, the D=2,4,5 extensions against schoolbook arithmetic mod X^D-W on coordinate alphabets, batch inversion for every length 0..13 and the packed field lane by lane; run in the checked profile so that a false `assume` is a panic. Exhaustive inside the stated alphabets; the 2^128 operand pairs of the quantifier are out of reach of enumeration.",
